@@ -30,13 +30,15 @@ def configs(tier, seed):
     names = BOUNDS[tier]["dimsets"]
     for name in names:
         size = int(np.prod([len(s[2]) for s in DIMSETS[name]]))
-        for L in layouts(name, tier):
-            out.append(dict(h="roundtrip", op=name, key=f"roundtrip/{name}/{layout_key(L)}", ds=name, L=L))
+        for li, L in enumerate(layouts(name, tier)):
+            fo = bool(li % 2) and len(DIMSETS[name]) >= 2  # every other layout on a column-major values array
+            out.append(dict(h="roundtrip", op=name, key=f"roundtrip/{name}/{layout_key(L)}" + ("/F" if fo else ""), ds=name, L=L, fortran=fo))
         for index in (True, False):
             nd = len(DIMSETS[name])
             for d2c in [None] + list(range(nd)):
                 for sparse in ((False, True) if size <= (4 if tier == "quick" else 6) else (False,)):
-                    out.append(dict(h="to_df", op=name, key=f"to_df/{name}/index={int(index)}/d2c={d2c}/sparse={int(sparse)}", ds=name, index=index, d2c=d2c, sparse=sparse))
+                    for fo in ((False, True) if nd >= 2 else (False,)):
+                        out.append(dict(h="to_df", op=name, key=f"to_df/{name}/index={int(index)}/d2c={d2c}/sparse={int(sparse)}" + ("/F" if fo else ""), ds=name, index=index, d2c=d2c, sparse=sparse, fortran=fo))
         if size <= 4:
             for perm in itertools.permutations(range(size)):
                 if perm == tuple(range(size)):
@@ -49,7 +51,7 @@ def ctx_setup(cfg, c):
     c.cands = tuple(numeric_items(cfg["ds"]))
 
 
-def _arr(w, name, no_confusion=False):
+def _arr(w, name, no_confusion=False, fortran=False):
     from flodym import FlodymArray
 
     dims = build_dims(name)
@@ -62,7 +64,11 @@ def _arr(w, name, no_confusion=False):
         for k in numeric_items(name):
             for v in X.flat:
                 w.assume(w.or_(w.lt(v, k), w.ge(v, k + 1)) if k >= 0 else w.or_(w.le(v, k - 1), w.gt(v, k)))
-    return dims, X, FlodymArray(dims=dims, values=X.copy(), name="param")
+    vals = X.copy()
+    if fortran and vals.ndim >= 2:
+        # same labels, column-major memory layout (what x.T, np.asfortranarray or a pure dimension reorder produce)
+        vals = np.asfortranarray(vals).view(type(vals))
+    return dims, X, FlodymArray(dims=dims, values=vals, name="param")
 
 
 def _confusable(name):
@@ -81,7 +87,7 @@ def run(cfg, w):
     # a frame in which a numeric dimension is identified through its items only is ambiguous when values coincide
     # with those items (the property's own exception): such inputs are excluded there, and explored everywhere else
     ambiguous_layout = bool(L) and _confusable(name) and (L["header"] == "items" or (L["d2c"] is not None and any(isinstance(i, (int, float)) for i in spec[L["d2c"][1]][2])))
-    dims, X, x = _arr(w, name, no_confusion=ambiguous_layout)
+    dims, X, x = _arr(w, name, no_confusion=ambiguous_layout, fortran=bool(cfg.get("fortran")))
     if h == "to_df":
         d2c = None if cfg["d2c"] is None else spec[cfg["d2c"]][1]
         try:
